@@ -215,7 +215,17 @@ class DConc:
         return [self.sn[c][t] for t in toks]
 
 
+_FRAMES = []      # every data frame handed to the library during one case, with its snapshot (C16: estimation never changes its data)
+
+
 def make_df(conc, inst, rows, rng, mode):
+    from ..frames import df_snapshot
+    df = _make_df(conc, inst, rows, rng, mode)
+    _FRAMES.append((df, df_snapshot(df)))
+    return df
+
+
+def _make_df(conc, inst, rows, rng, mode):
     """mode: plain (one line per row, weights ignored) | expand (integer weight = repeated lines) | weighted (_weight column).
     Row order and column order are random; categorical columns get their categories in random order incl. never-observed ones."""
     import pandas as pd
@@ -618,10 +628,17 @@ def replay_gen(payload):
     insts = {i["id"]: i for i in payload["insts"]}
     hs = int(os.environ.get("PYTHONHASHSEED", "0"))
     fails, ncalls = [], 0
+    from ..frames import df_snapshot
     for case in payload["cases"]:
+        del _FRAMES[:]
         n, vs = replay_one(case, insts[case["inst"]], payload["seed"], hs, payload.get("p_nj2", 0.0))
         ncalls += n
         fails += vs
+        if any(df_snapshot(df) != snap for df, snap in _FRAMES):
+            fails.append({"api": "fit", "clause": "data_argument_changed", "features": {"kind": case["kind"]}, "observed": None,
+                          "expected": "the data frame as passed in", "detail": {},
+                          "case": {"kind": "gen", "inst": insts[case["inst"]], "case": case, "seed": payload["seed"], "hashseed": hs,
+                                   "p_nj2": payload.get("p_nj2", 0.0)}})
     return {"n": len(payload["cases"]), "calls": ncalls, "fails": fails[:int(os.environ.get("C06_MAXFAILS", "60"))], "nfails": len(fails)}
 
 
